@@ -1400,6 +1400,7 @@ class Net(Stream):
         # timing-only mismatches are retried twice before they count
         fails = []
         retried = 0
+        transient = 0
         hist = {}
         samples = []
         nontriv = 0
@@ -1413,6 +1414,18 @@ class Net(Stream):
                 retried += 1
                 i = run_net_parallel([line]).get(cid, "MISSING")
                 why = self.oracle(line, i, None, pid)
+            if why and tries == 0:
+                # confirmation run, alone on the loopback: scenarios run 12 at a time on ephemeral ports, and a late
+                # datagram of a finished scenario can reach a socket that reuses its port; a deterministic failure
+                # fails again, cross-talk does not
+                transient += 1
+                i2 = run_net_parallel([line], width=1).get(cid, "MISSING")
+                why2 = self.oracle(line, i2, None, pid)
+                if why2:
+                    transient -= 1
+                    i, why = i2, why2
+                else:
+                    i, why = i2, None
             if why:
                 sc = self.scen.get(cid)
                 k = "%s:%s" % (sc.client if sc else "?", why[:40])
@@ -1424,7 +1437,7 @@ class Net(Stream):
             if len(samples) < 3:
                 samples.append({"case": line.split(" ", 1)[1][:300], "impl": i[:300]})
         return {"evaluations": len(cases), "distinct_nontrivial": nontriv, "rule": self.rule, "samples": samples, "histogram": hist,
-                "disagreements": [], "failures": fails, "timing_retries": retried, "model_impl_agree": len(cases)}
+                "disagreements": [], "failures": fails, "timing_retries": retried, "not_reproduced_alone": transient, "model_impl_agree": len(cases)}
 
     def classify(self, line, impl):
         sc = self.scen.get(line.split(" ", 1)[0])
@@ -1640,7 +1653,23 @@ class NetModel(Net):
         return "U err:Timeout"
 
     def run(self, cases, pid, tier):
-        impl = run_net_parallel(cases)
+        res = self.run_once(cases, run_net_parallel(cases))
+        bad = set(f["case"].split(" ", 1)[0] for f in res["failures"] + res["disagreements"])
+        res["not_reproduced_alone"] = 0
+        if bad and len(bad) <= 80:
+            # confirmation run of the failing cases, one at a time: scenarios run 12 at a time on ephemeral ports,
+            # and a late datagram of a finished scenario can reach a socket that reuses its port; a deterministic
+            # failure fails again, cross-talk does not
+            again = [l for l in cases if l.split(" ", 1)[0] in bad]
+            res2 = self.run_once(again, run_net_parallel(again, width=1))
+            bad2 = set(f["case"].split(" ", 1)[0] for f in res2["failures"] + res2["disagreements"])
+            res["failures"] = [f for f in res2["failures"]]
+            res["disagreements"] = [d for d in res2["disagreements"]]
+            res["not_reproduced_alone"] = len(bad - bad2)
+            res["model_impl_agree"] = res["evaluations"] - len(res["disagreements"])
+        return res
+
+    def run_once(self, cases, impl):
         fails, hist, samples, nontriv = [], {}, [], 0
         mlines, info = [], {}
         for line in cases:
